@@ -494,6 +494,43 @@ int main()
       reset_cfg();
       sanity();
     }
+    else if (!strcmp(cmd, "cfg"))
+    {
+      // set/get round trip of one configuration key: untyped set -> untyped get, typed get; typed set -> untyped get.
+      // The slot is pre-filled with all ones so that a write through a narrower member shows.
+      int key = (int) geti("key", 0); int bits = (int) geti("bits", 32);
+      char* vals = strdup(get("v", "0")); char* save = NULL;
+      uint64_t keep64 = 0; uint32_t keep32 = 0;
+      if (bits == 64) yr_get_configuration((YR_CONFIG_NAME) key, &keep64); else yr_get_configuration((YR_CONFIG_NAME) key, &keep32);
+      for (char* t = strtok_r(vals, ",", &save); t; t = strtok_r(NULL, ",", &save))
+      {
+        uint64_t v = strtoull(t, 0, 10), g1 = 0, g2 = 0, g3 = 0; int r1, r2, r3, r4, r5;
+        if (bits == 64)
+        {
+          uint64_t ones = ~0ULL, in = v, o1 = 0x5555555555555555ULL, o2 = 0x5555555555555555ULL, o3 = 0x5555555555555555ULL;
+          yr_set_configuration((YR_CONFIG_NAME) key, &ones);
+          r1 = yr_set_configuration((YR_CONFIG_NAME) key, &in);
+          r2 = yr_get_configuration((YR_CONFIG_NAME) key, &o1); r3 = yr_get_configuration_uint64((YR_CONFIG_NAME) key, &o2);
+          yr_set_configuration((YR_CONFIG_NAME) key, &ones);
+          r4 = yr_set_configuration_uint64((YR_CONFIG_NAME) key, v); r5 = yr_get_configuration((YR_CONFIG_NAME) key, &o3);
+          g1 = o1; g2 = o2; g3 = o3;
+        }
+        else
+        {
+          uint32_t ones = ~0U, in = (uint32_t) v, o1 = 0x55555555U, o2 = 0x55555555U, o3 = 0x55555555U;
+          yr_set_configuration((YR_CONFIG_NAME) key, &ones);
+          r1 = yr_set_configuration((YR_CONFIG_NAME) key, &in);
+          r2 = yr_get_configuration((YR_CONFIG_NAME) key, &o1); r3 = yr_get_configuration_uint32((YR_CONFIG_NAME) key, &o2);
+          yr_set_configuration((YR_CONFIG_NAME) key, &ones);
+          r4 = yr_set_configuration_uint32((YR_CONFIG_NAME) key, (uint32_t) v); r5 = yr_get_configuration((YR_CONFIG_NAME) key, &o3);
+          g1 = o1; g2 = o2; g3 = o3;
+        }
+        printf(" %llu:%llu,%llu,%llu:%d", (unsigned long long) v, (unsigned long long) g1, (unsigned long long) g2, (unsigned long long) g3,
+               r1 | r2 | r3 | r4 | r5);
+      }
+      free(vals);
+      if (bits == 64) yr_set_configuration((YR_CONFIG_NAME) key, &keep64); else yr_set_configuration((YR_CONFIG_NAME) key, &keep32);
+    }
     else if (!strcmp(cmd, "scanblocks"))
     {
       YR_RULES* r = do_compile("text", 1);
